@@ -112,8 +112,14 @@ def filtered_stream(rng, d, k):
     /Filter, /DecodeParms, array elements (objects nothing else references)"""
     raw = bytes(rng.choice(b"abc \n\x00\xff") for _ in range(rng.choice([8, 64, 96, 300])))
     cols = rng.choice([1, 4, 8, 12])
-    shape = rng.randrange(9)
+    shape = rng.randrange(10)
     ahx = lambda b: b.hex().encode() + b">"
+    if shape == 9:
+        # decode parameters outside their ranges (7.4.4.4: Predictor 1,2,10..15; Colors >= 1; BitsPerComponent 1,2,4,8,16; Columns >= 1;
+        # EarlyChange 0,1): such a stream cannot be decoded, so it must be carried over byte for byte with its parameters
+        bad = rng.choice([D(Predictor=3, Columns=4), D(Predictor=12, Columns=0), D(Predictor=12, Columns=4, BitsPerComponent=3),
+                          D(Predictor=2, Columns=4, Colors=0), D(Predictor=16, Columns=4), D(Predictor=12, Columns=4, BitsPerComponent=32)])
+        return Stream({b"Marker": k, b"Filter": N("FlateDecode"), b"DecodeParms": bad}, zlib.compress(raw))
     pred, raw_p = png_predict(raw, cols, rng)
     pp = D(Predictor=rng.choice([10, 12, 15]), Columns=cols)
     if shape == 0:      # Flate + predictor, direct parameters
